@@ -178,21 +178,26 @@ Definition times_f (left right : fval) : res fval :=
             Ok (dec_result (dec_mul m1 e1 m2 e2))
   end.
 
-(** math.py:113 [modulo] (after the proposed fix "modulo of a negative float had
-    the sign of the dividend"): ZeroDivisionError (ints) -> LiquidTypeError;
-    the Decimal path raises decimal.InvalidOperation for a zero divisor, which
-    is not a ZeroDivisionError and escapes; a non-zero Decimal remainder whose
-    sign differs from the divisor's is moved by one divisor. *)
+(** math.py:113 [modulo] (after the proposed fixes "modulo of a negative float had
+    the sign of the dividend" and, in filter.py:170 [math_filter], "math filters
+    raised OverflowError, ValueError or decimal.InvalidOperation"):
+    ZeroDivisionError (ints) -> LiquidTypeError; the Decimal path raises
+    decimal.InvalidOperation for a zero divisor or an oversized quotient, an
+    ArithmeticError that the [math_filter] wrapper turns into LiquidTypeError;
+    a non-zero Decimal remainder whose sign differs from the divisor's is
+    moved by one divisor. *)
 Definition modulo_f (left right : fval) : res fval :=
   do l <- math_left left;; do r <- math_right right;;
   match l, r with
   | NInt a, NInt b => if b =? 0 then LErr LiquidTypeError None else Ok (FInt (a mod b))
   | _, _ => let (m1, e1) := num_dec l in let (m2, e2) := num_dec r in
-            do p <- dec_rem m1 e1 m2 e2;;
-            let (m, e) := p in
-            if negb (m =? 0) && negb (Bool.eqb (m <? 0) (m2 <? 0))
-            then Ok (dec_result (dec_add m e m2 e2))
-            else Ok (dec_result p)
+            match dec_rem m1 e1 m2 e2 with
+            | Ok (m, e) =>
+                if negb (m =? 0) && negb (Bool.eqb (m <? 0) (m2 <? 0))
+                then Ok (dec_result (dec_add m e m2 e2))
+                else Ok (dec_result (m, e))
+            | _ => LErr LiquidTypeError None
+            end
   end.
 
 (** [round(x)] of a decimal: half to even. *)
